@@ -46,6 +46,19 @@ pub struct ReqSpec {
     pub resp_gap: u8,
     pub cancel_at: Option<u16>,
     pub handler_error: bool,
+    /// 0: /r/<id>?k=<id>; 1: /?k=<id> (root path, id only in query and header); 2: /r/<id> without query;
+    /// 3: deep path with encoded characters and a longer query
+    #[serde(default)]
+    pub target: u8,
+}
+
+pub fn target_of(id: usize, target: u8) -> (String, Option<String>) {
+    match target % 4 {
+        0 => (format!("/r/{id}"), Some(format!("k={id}"))),
+        1 => ("/".to_string(), Some(format!("k={id}"))),
+        2 => (format!("/r/{id}"), None),
+        _ => (format!("/r/{id}/a%20b/;p=1/x.y"), Some(format!("k={id}&empty=&q=%2F%3F&k2={id}"))),
+    }
 }
 
 #[derive(Clone, Debug, Serialize, Deserialize, PartialEq)]
@@ -385,7 +398,8 @@ struct SrvCtx {
 async fn handle(ctx: Arc<SrvCtx>, conn: usize, req: http::Request<hyperdriver::Body>) -> Result<http::Response<ChunkBody>, BoxError> {
     let (parts, body) = req.into_parts();
     let path = parts.uri.path().to_string();
-    let id: Option<usize> = path.strip_prefix("/r/").and_then(|s| s.parse().ok());
+    // the id travels in the path, the query and a header; the header identifies the script entry
+    let id: Option<usize> = parts.headers.get("x-id").and_then(|v| v.to_str().ok()).and_then(|v| v.parse().ok());
     let t = ctx.obs.lock().unwrap().now();
     let Some(id) = id.filter(|i| *i < ctx.reqs.len()) else {
         // raw actors (faults, probes) use other paths
@@ -402,8 +416,12 @@ async fn handle(ctx: Arc<SrvCtx>, conn: usize, req: http::Request<hyperdriver::B
     if parts.method.as_str() != want_method {
         problems.push(format!("method {} != {want_method}", parts.method));
     }
-    if parts.uri.query() != Some(&format!("k={id}")) {
-        problems.push(format!("query {:?} != k={id}", parts.uri.query()));
+    let (want_path, want_query) = target_of(id, spec.target);
+    if path != want_path {
+        problems.push(format!("path {path} != {want_path}"));
+    }
+    if parts.uri.query() != want_query.as_deref() {
+        problems.push(format!("query {:?} != {want_query:?}", parts.uri.query()));
     }
     match parts.headers.get("x-id").and_then(|v| v.to_str().ok()).and_then(|v| v.parse::<usize>().ok()) {
         Some(h) if h == id => {}
@@ -546,7 +564,13 @@ fn build_request(case: &NetCase, id: usize, spec: &ReqSpec) -> http::Request<Chu
     http::Request::builder()
         .method(METHODS[spec.method as usize % METHODS.len()])
         .version(request_version(case, spec))
-        .uri(format!("http://s{srv}.test/r/{id}?k={id}"))
+        .uri({
+            let (p, q) = target_of(id, spec.target);
+            match q {
+                Some(q) => format!("http://s{srv}.test{p}?{q}"),
+                None => format!("http://s{srv}.test{p}"),
+            }
+        })
         .header("x-id", id)
         .header("x-keep", format!("v{id}"))
         // hyper's HTTP/1 client does not send a body of unknown length with GET (chunked encoding is
@@ -799,8 +823,9 @@ pub fn req_strategy(nsrv: u8, allow_cancel: bool, allow_error: bool) -> impl pro
         (prop_oneof![1 => Just(0u16), 2 => 1u16..300, 1 => 300u16..20000], 1u8..6, prop_oneof![3 => Just(0u8), 1 => 1u8..4]),
         if allow_cancel { prop_oneof![4 => Just(None), 1 => (0u16..80).prop_map(Some)].boxed() } else { Just(None).boxed() },
         if allow_error { prop_oneof![9 => Just(false), 1 => Just(true)].boxed() } else { Just(false).boxed() },
+        prop_oneof![3 => Just(0u8), 2 => Just(1u8), 1 => Just(2u8), 2 => Just(3u8)],
     )
-        .prop_map(|((server, h2, method), start, (body_len, body_chunks, body_gap, exact_hint), handler_delay, (resp_len, resp_chunks, resp_gap), cancel, handler_error)| ReqSpec {
+        .prop_map(|((server, h2, method), start, (body_len, body_chunks, body_gap, exact_hint), handler_delay, (resp_len, resp_chunks, resp_gap), cancel, handler_error, target)| ReqSpec {
             server,
             h2,
             method,
@@ -815,6 +840,7 @@ pub fn req_strategy(nsrv: u8, allow_cancel: bool, allow_error: bool) -> impl pro
             resp_gap,
             cancel_at: cancel.map(|c| start + c),
             handler_error,
+            target,
         })
 }
 
